@@ -276,6 +276,13 @@ def collect_subprocess(p, extra_env):
     return r
 
 
+def _reason_key(why):
+    """the kind of failure: the first reason without its numbers -- a shrunk case must fail for the same kind of reason"""
+    import re
+    first = (why or "").split(" ;; ")[0]
+    return re.sub(r"[0-9]+", "#", first)[:48]
+
+
 def shrink(prop, bad, deadline):
     """greedy minimisation: keep a candidate while it still fails the same way (holds/agree flags)"""
     cur = bad
@@ -289,7 +296,8 @@ def shrink(prop, bad, deadline):
                 io, mo, v = prop.evaluate(cand)
             except Exception:
                 continue
-            if (not v.holds) == (not cur["holds"]) and (not v.agree) == (not cur["agree"]) and not (v.agree and v.holds):
+            if (not v.holds) == (not cur["holds"]) and (not v.agree) == (not cur["agree"]) and not (v.agree and v.holds) \
+                    and _reason_key(v.why) == _reason_key(cur["why"]):
                 cur = {"case": cand, "impl": io, "model": mo, "agree": v.agree, "holds": v.holds, "why": v.why,
                        "shrunk_from": bad["case"] if "shrunk_from" not in cur else cur["shrunk_from"]}
                 improved = True
@@ -306,7 +314,8 @@ def write_replay(pid, seed, n, kind, bad, broken=None):
         json.dump({"property": pid, "kind": kind, "case": _strip(bad["case"]), "impl_output": bad["impl"],
                    "model_output": bad["model"], "agree": bad["agree"], "holds": bad["holds"], "why": bad["why"],
                    "broken": broken, "shrunk_from": _strip(bad.get("shrunk_from", {})) or None,
-                   "env": bad.get("env"), "seed": seed, "repo_head": core.repo_head()}, fh, indent=1, default=str)
+                   "env": {**(bad.get("env") or {}), "PYTHONHASHSEED": os.environ.get("PYTHONHASHSEED", "0")},
+                   "seed": seed, "repo_head": core.repo_head()}, fh, indent=1, default=str)
     return rel
 
 
